@@ -1,6 +1,6 @@
 # C06 - a suspend point never loses or duplicates a ready coroutine
 import re
-from ..core import Item, norm, relloc, live, calls, evs, Broken, value_origin, Tracer, fmt_trace, rooted, has_back_edge, pos, efield
+from ..core import Item, norm, relloc, live, calls, evs, Broken, value_origin, Tracer, fmt_trace, rooted, has_back_edge, pos, efield, tests
 from .. import witness
 from ..rules import *
 
@@ -23,6 +23,7 @@ def run(ctx, db, tier):
     source_reset(ctx, db)
     consumers_clear(ctx, db)
     self_inclusion(ctx, db)
+    listed_queued_once(ctx, db)
     growth(ctx, db)
     value_writers(ctx, db)
     collected_is_removed(ctx, db)
@@ -592,6 +593,100 @@ def self_inclusion(ctx, db, rid_='C06.self-inclusion'):
                 bad = bad or e
         ctx.ob(rid, f, (bad or (ws[0] if ws else {'loc': f['key']}))['loc'], bad is None, 'the flag %s only ever accumulates inside the scan loop' % var.split(':')[1],
                desc='self-inclusion flag overwritten inside the loop')
+
+
+def listed_queued_once(ctx, db, rid_='C06.listed-handles-queued-once'):
+    """await_suspend, coroutine-mode edge: every handle still listed is queued exactly once, and so is the awaiting coroutine - which may itself be
+    one of the listed handles.  One iteration of the scan is judged under both hypotheses about the scanned element x (x is / is not the awaiting
+    coroutine); the flag that suppresses the final push is evaluated along the path, so paths on which the flag and the comparison disagree are
+    not considered.  A scan that skips the own handle and still marks it as queued loses the awaiting coroutine"""
+    rid = ctx.rule(rid_, 'COUNT', 'suspend_point::await_suspend, coroutine-mode edge, one scan iteration under both hypotheses: an element that is not the awaiting coroutine is queued exactly '
+                   'once and the awaiting coroutine is queued once after the scan; an element that is the awaiting coroutine is queued exactly once in total (in the scan or after it)', floor=1)
+    n = 0
+    for f, trs in traces_of(db, 'cocls::suspend_point::await_suspend', per_instance=False):
+        if not any('coroutine_handle' in p['type'] for p in f['params']):
+            continue
+        hname = 'param:' + f['params'][0]['name']
+        bad = None; judged = 0
+        for tr in trs:
+            if not live(tr):
+                continue
+            # the comparison of a scanned element with the awaiting coroutine's address
+            cm = []
+            for i, it in enumerate(tr):
+                if it.k == 'cmp' and it.get('op') in ('==', '!='):
+                    sides = [it.get('lhs') or '', it.get('rhs') or '']
+                    me = [x for x in sides if hname in x or re.search(r'coroutine_handle(<[^>]*>)?::address', x)]
+                    if len(me) == 1:
+                        cm.append((i, it, sides[1 - sides.index(me[0])]))
+            if len(cm) != 1:
+                continue        # no iteration, or more than one unrolled: judged on the single-iteration paths
+            ci, cit, elem = cm[0]
+            if not elem.startswith('local:'):
+                continue
+            pushes = [(i, it) for i, it in enumerate(tr) if it.k == 'call' and not it.get('expanded') and norm(it.get('callee') or '').endswith('::push')]
+            def mentions(it, name, d=0):
+                for a in it.get('args', []) or []:
+                    if name in (a.get('path') or ''):
+                        return True
+                    if a.get('ev') is not None and d < 3:
+                        src = next((x for x in tr if x.get('id') == a['ev'] and x.get('fn') == it.get('fn') and x.get('depth') == it.get('depth') and x.k in ('call', 'construct')), None)
+                        if src is not None and (name in (src.get('recv') or '') or mentions(src, name, d + 1)):
+                            return True
+                return False
+            pe = sum(1 for i, it in pushes if mentions(it, elem))
+            ph = sum(1 for i, it in pushes if mentions(it, hname))
+            cbr = next((b for b in tr[ci + 1:] if tests(b, cit)), None)
+            for hyp in (False, True):       # is the element the awaiting coroutine?
+                cval = hyp if cit.get('op') == '==' else (not hyp)
+                if cbr is not None and bool(cbr.val) != cval:
+                    continue
+                # evaluate bool locals written from the comparison along the path
+                env = {}
+                feasible = True
+                for i, it in enumerate(tr):
+                    if it.k == 'decl' and (it.get('var') or '').startswith('local:') and it.get('const') in (0, 1) and (it.get('init') in ('false', 'true')):
+                        env[it['var']] = bool(it['const'])
+                    elif it.k == 'decl' and i > ci and (it.get('var') or '').startswith('local:') and it.get('init') and elem in it['init'] and ('==' in it['init'] or '!=' in it['init']):
+                        env[it['var']] = cval if '==' in it['init'] else (not cval)
+                    elif it.k == 'write' and (it.get('path') or '') in env or (it.k == 'write' and (it.get('path') or '').startswith('local:') and i > ci and it.get('op') in ('=', '|=', '&=')):
+                        v = it['path']
+                        rhs = it.get('rhs') or ''
+                        if it.get('const') in (0, 1) and rhs in ('true', 'false', '0', '1'):
+                            rv = bool(it['const'])
+                        elif elem in rhs and ('==' in rhs or '!=' in rhs):
+                            rv = cval if '==' in rhs else (not cval)
+                        elif rhs in env:
+                            rv = env[rhs]
+                        else:
+                            rv = None
+                        old = env.get(v)
+                        if it.get('op') == '=':
+                            env[v] = rv
+                        elif it.get('op') == '|=':
+                            env[v] = True if (rv is True or old is True) else (None if (rv is None or old is None) else False)
+                        elif it.get('op') == '&=':
+                            env[v] = False if (rv is False or old is False) else (None if (rv is None or old is None) else True)
+                    elif it.k == 'branch' and i > ci and (it.get('path') in env or it.get('opath') in env):
+                        k = it.get('path') if it.get('path') in env else it.get('opath')
+                        if env[k] is not None and bool(it.val) != env[k]:
+                            feasible = False; break
+                if not feasible:
+                    continue
+                judged += 1
+                if hyp and pe + ph != 1:
+                    bad = bad or ('a listed handle that is the awaiting coroutine itself is queued %d times (scan %d, after the scan %d): %s' % (pe + ph, pe, ph, 'the awaiting coroutine is never resumed' if pe + ph == 0 else 'it is resumed twice'), tr)
+                elif not hyp and pe != 1:
+                    bad = bad or ('a listed handle is queued %d times by the scan' % pe, tr)
+                elif not hyp and ph != 1:
+                    bad = bad or ('the awaiting coroutine is queued %d times although it was not among the listed handles' % ph, tr)
+        if judged == 0:
+            continue
+        n += 1
+        ctx.ob(rid, f, f['key'], bad is None, 'every listed handle and the awaiting coroutine are queued exactly once' + ('' if not bad else ' -- ' + bad[0]), desc=bad[0][:80] if bad else None,
+               trace=fmt_trace(bad[1]) if bad else None)
+    if n == 0:
+        raise Broken('await_suspend: the scan that compares the listed handles with the awaiting coroutine was not found')
 
 
 RQ = 'cocls::coro_queue::queue_impl::_queue'
